@@ -633,8 +633,8 @@ class Program:
         self._synth_dataclass_init(m, ci)
 
     def _synth_dataclass_init(self, m: Module, ci: ClassInfo) -> None:
-        """A dataclass with a `__post_init__` (or one whose hand-written `__init__` the rules know and which has been
-        turned into a dataclass) is analysed through the `__init__` the decorator generates: one parameter and one
+        """A class whose hand-written `__init__` the rules know and which has been turned into a dataclass is analysed
+        through the `__init__` the decorator generates: one parameter and one
         store per init-field, the default / default_factory() of every init=False field, then `self.__post_init__()`.
         Only the plain case: no dataclass bases, no InitVar / ClassVar, no `init=False` on the decorator."""
         import copy
@@ -649,7 +649,9 @@ class Program:
                 was_known = any(ln.strip() == known_init for ln in fh)
         except OSError:
             was_known = False
-        if "__post_init__" not in ci.methods and not was_known:
+        if not was_known:
+            # (a record class that *gains* a __post_init__ keeps being judged as a record: the foundation rules report
+            # the transformation - it is not quietly turned into an ordinary constructor)
             return
         if node.bases and any(ast.unparse(b).split("[")[0].split(".")[-1] not in ("Generic", "object") for b in node.bases):
             return
